@@ -1,6 +1,13 @@
-(* C11 — same case format and decoding as C09 (Run/C09.v).
-   result (mode 1/2): ( res flags ), flags = ( tz_class has_error_piece )
-   mode 0: the date formats to ask the chrono oracle about.                  *)
+(* C11 -- same case format and decoding as C09 (Run/C09.v), except the last
+   field:  ast = () | ( (node..) junk ) : the pattern is the printed AST
+   followed by the arbitrary string junk.
+   result (mode 1/2): ( res flags errs meaning )
+     res     "panic" | "ok" | ( event.. )           (as in C09)
+     flags   ( tz_class has_error_piece has_ast prefix_ok )
+     errs    ( msg.. ) messages of the top-level Error chunks (each must be
+             visible as "{ERROR: msg}" in the output)
+     meaning ( event.. ) of the AST: when prefix_ok, the output starts with it
+   mode 0: the date formats to ask the chrono oracle about. -- *)
 From Coq Require Import List NArith Bool.
 Import ListNotations.
 From L4 Require Import Common.Val Model.Pattern Proofs.PatternSpec Run.C09.
@@ -13,18 +20,46 @@ Fixpoint has_error (p : piece) : bool :=
   | PText _ => false
   end.
 
+Definition top_errors (cs : list chunk) : list str :=
+  flat_map (fun c => match c with CError m => [m] | _ => [] end) cs.
+
+(* the junk must not be pulled into the last format's fill look-ahead
+   (finding F-C09-empty-spec-lookahead) *)
+Definition junk_ok (seq : list ast) (junk : str) : bool :=
+  negb (match rev seq with a :: _ => colon_only a | [] => false end
+        && match junk with c :: _ => (c =? 60) || (c =? 62) | [] => false end).
+
 Definition c11_run (v : vl) : vl :=
   match v with
   | VL [VN 0; _; _] => c09_run v
-  | _ =>
-    match decode v with
+  | VL [mode; pat; rec; mdc; thread; cls; rt; times; a] =>
+    match decode (VL [mode; pat; rec; mdc; thread; cls; rt; times; VL []]) with
     | None => VBad
     | Some d =>
       match run_model d with
       | None => VBad
       | Some (res, ps) =>
-        VL [res; VL [VB (existsb (tz_class (strftime_ok_of (d_times d))) ps);
-                     VB (existsb has_error ps)]]
+        let al := alpha_of (d_cls d) in
+        let an := alnum_of (d_cls d) in
+        let ok := strftime_ok_of (d_times d) in
+        let flags2 := [VB (existsb (tz_class ok) ps); VB (existsb has_error ps)] in
+        let errs := VL (map (fun m => VL (map VN m)) (top_errors (map (compile ok) ps))) in
+        match a with
+        | VL [] => VL [res; VL (flags2 ++ [VN 0; VN 0]); errs; VL []]
+        | VL [sq; jk] =>
+          match dec_ast_seq sq, dec_str jk with
+          | Some seq, Some junk =>
+            if negb (str_eqb (print_seq seq ++ junk) (d_pattern d)) then VBad else
+            VL [res;
+                VL (flags2 ++ [VN 1;
+                      VB (wf_seq al an true false seq && forallb (sem_ok ok) seq && junk_ok seq junk)]);
+                errs;
+                enc_result (meaning_seq (time_str_of (d_times d)) (d_env d) seq)]
+          | _, _ => VBad
+          end
+        | _ => VBad
+        end
       end
     end
+  | _ => VBad
   end.
